@@ -1,6 +1,7 @@
 package main
 
 import (
+	"bytes"
 	"fmt"
 	"reflect"
 	"strings"
@@ -53,8 +54,72 @@ func runC04(r *run) {
 			emit(caseT{"history", args})
 		}
 	}
-	driveCases(r, gen, execC04)
+	driveCases(r, func(emit func(caseT)) { gen(emit); genC04Errors(rg, emit) }, execC04)
 	r.finish(nil)
+}
+
+// the same failing construct at two places of one template, selected by the context: each
+// failure must be reported as a fresh compilation reports it, whatever failed before
+func genC04Errors(rg *rng, emit func(caseT)) {
+	fails := []string{`s1|date:"2006"`, `s1|pluralize:"a,b,c"`, `s1|slice:"1"`, `s1|floatformat:"x"`, `1 / z`, `s1|center:"x"`, `nosuchfn()`, `lst|time:"15"`, `n1|divisibleby:0`, `s1.0.x`}
+	pads := []string{"", "\n", "line\n\n  ", "é ", "\t\t", "<p>\n</p>\n"}
+	for i, f := range fails {
+		for k := 0; k < 6; k++ {
+			p1, p2 := pads[(i+k)%len(pads)], pads[(i+2*k+1)%len(pads)]
+			src := p1 + "head{% if sel == 1 %}{{ " + f + " }}{% endif %}ok" + p2 + "{% if sel == 2 %}" + p1 + "{{ " + f + " }}{% endif %}end"
+			g := newProgGen(rg.fork(uint64(7000 + i*10 + k)))
+			a := g.context(0)
+			mk := func(sel int) gctx {
+				var c gctx
+				for _, e := range a {
+					if e.key != "sel" && e.key != "z" {
+						c = append(c, e)
+					}
+				}
+				return append(c, ctxEntry{"sel", gInt(sel)}, ctxEntry{"z", gInt(0)})
+			}
+			one, two, none := mk(1), mk(2), mk(0)
+			hist := []gctx{one, none, two, none, one, two, none}
+			if k%2 == 1 {
+				hist = []gctx{two, one, none, none}
+			}
+			parts := make([]string, len(hist))
+			for j, h := range hist {
+				parts[j] = h.descr()
+			}
+			args := (&world{}).args(src, nil)
+			args[1] = strings.Join(parts, "~")
+			// extra: the failing construct, so that reported positions can be judged against the source
+			args = append(args, "-", "-", hx("{{ "+f+" }}"))
+			emit(caseT{"history", args})
+		}
+	}
+}
+
+// the four entry points, in turn: what one of them leaves behind must not reach the next
+func execVariant(tpl *pongo2.Template, ctx pongo2.Context, k int) (out string, err error, panicked any) {
+	defer func() {
+		if r := recover(); r != nil {
+			panicked = r
+		}
+	}()
+	switch k % 4 {
+	case 0:
+		out, err = tpl.Execute(ctx)
+	case 1:
+		var b bytes.Buffer
+		err = tpl.ExecuteWriter(ctx, &b)
+		out = b.String()
+	case 2:
+		var bs []byte
+		bs, err = tpl.ExecuteBytes(ctx)
+		out = string(bs)
+	case 3:
+		var b bytes.Buffer
+		err = tpl.ExecuteWriterUnbuffered(ctx, &b)
+		out = b.String()
+	}
+	return
 }
 
 func tokensEqual(a, b []pongo2.Token) bool { return reflect.DeepEqual(a, b) }
@@ -86,8 +151,39 @@ func execC04(r *run, c caseT) {
 		err bool
 	}
 	var results []res
-	for _, h := range hist {
-		out, xerr, p := executeIn(tpl, h.goContext())
+	var errTexts []string
+	// which entry point runs each step: one of the four throughout, or all four in turn
+	mode := len(src) % 5
+	for k, h := range hist {
+		v := mode
+		if mode == 4 {
+			v = k
+		}
+		out, xerr, p := execVariant(tpl, h.goContext(), v)
+		et := ""
+		if xerr != nil {
+			et = xerr.Error()
+		}
+		errTexts = append(errTexts, et)
+		// a failure is reported where it happened, whatever failed before (in this or any other
+		// template of the process)
+		if perr, ok := xerr.(*pongo2.Error); ok && len(c.args) > 9 && perr.Line > 0 {
+			construct := unhx(c.args[9])
+			first, last := strings.Index(src, construct), strings.LastIndex(src, construct)
+			want := first
+			for _, e := range h {
+				if e.key == "sel" && e.val.descr() == "i2" {
+					want = last
+				}
+			}
+			off, okPos := offsetOf(src, perr.Line, perr.Column)
+			if !okPos || off < want || off >= want+len(construct) {
+				id := r.emit(c.op, c.args, "xerr-position")
+				r.reject(id, "an execution error is reported at a position outside the construct that failed", map[string]any{"template": src,
+					"error": perr.Error(), "construct_at_byte": want, "reported_byte": off, "step": k + 1})
+				return
+			}
+		}
 		if p != nil {
 			obs = append(obs, "panic")
 		} else if xerr != nil {
@@ -125,6 +221,11 @@ func execC04(r *run, c caseT) {
 	// (c) every execution gives what a fresh compile gives
 	for i, h := range hist {
 		fo, _ := w.render(src, false, h)
+		if fo.obs == "xerr" && obs[i] == "xerr" && fo.err != nil && fo.err.Error() != errTexts[i] {
+			d2 := map[string]any{"template": src, "options": w.opts(), "observed_error": errTexts[i], "fresh_error": fo.err.Error()}
+			r.reject(id, fmt.Sprintf("execution %d fails with another error (message or position) than the first execution of a freshly compiled template", i+1), d2)
+			return
+		}
 		if fo.obs != obs[i] {
 			d2 := map[string]any{"template": src, "options": w.opts(), "observed": obs, "fresh": fo.obs}
 			r.reject(id, fmt.Sprintf("execution %d differs from the first execution of a freshly compiled template", i+1), d2)
